@@ -1,5 +1,9 @@
 import Resvg.Props.C08
 #print axioms Resvg.Props.C08.roundHalfAway_close
 #print axioms Resvg.Props.C08.C08_roundAt_close
+#print axioms Resvg.Props.C08.roundHalfAway_int
+#print axioms Resvg.Props.C08.C08_fixed_point
+#print axioms Resvg.Props.C08.C08_second_round_trip_exact
 #print axioms Resvg.Props.C08.C08_integers_exact
 #print axioms Resvg.Props.C08.C08_large_integer_saturates
+#print axioms Resvg.Props.C08.C08_pow_table_is_model
